@@ -89,7 +89,8 @@ class Fn:
             name = n["referencedDecl"]["name"]
             rk = n["referencedDecl"]["kind"]
             if rk == "EnumConstantDecl":
-                raise Unsupported("enum constant outside ConstantExpr")
+                ti = tinfo(ctype(n))
+                return lit(self.tr.enum_value(name), ti[0]), ti, []
             return self.var(name), tinfo(ctype(n)), []
         if k == "ImplicitCastExpr" or k == "CStyleCastExpr":
             ck = n["castKind"]
@@ -284,6 +285,76 @@ class Fn:
             v, dfn = self.block(rest)
             return (f"let {nm} : BitVec {tl[0]} := {t}\n{v}",
                     f"{conj(c)} &&\n(let {nm} : BitVec {tl[0]} := {t}\n{dfn})")
+        if k == "ForStmt":
+            # for (init; cond; inc) body  with a bounded trip count: unrolled `--unroll fn=N` times; running out of
+            # unrollings makes `<fn>_defined` false, so "N suffices for every input" is a theorem about the translation
+            inner = s["inner"]
+            if len(inner) != 5 or inner[1].get("kind") is not None:
+                raise Unsupported("for statement with a condition variable")
+            n = self.tr.unroll.get(self.name)
+            if n is None:
+                raise Unsupported(f"loop in {self.name} without --unroll bound")
+            loop = {"kind": "__loop", "cond": inner[2], "inc": inner[3], "body": inner[4], "n": n}
+            return self.block([inner[0], loop] + rest)
+        if k == "__loop":
+            if s["n"] == 0:
+                return lit(0, self.ret[0]), "false"
+            c0, tc, cc = self.expr(s["cond"])
+            cond = f"({c0} != {lit(0, tc[0])})"
+            nxt = dict(s); nxt["n"] = s["n"] - 1
+            tv, td = self.block([s["body"], s["inc"], nxt] + rest)
+            ev, ed = self.block(rest)
+            return (f"if {cond} then\n{indent(tv)}\nelse\n{ev}",
+                    f"{conj(cc)} &&\n(if {cond} then\n{indent(td)}\nelse\n{ed})")
+        if k == "UnaryOperator" and s.get("opcode") in ("++", "--"):
+            lhs = s["inner"][0]
+            while lhs["kind"] == "ParenExpr":
+                lhs = lhs["inner"][0]
+            if lhs["kind"] != "DeclRefExpr":
+                raise Unsupported("increment target")
+            nm = self.var(lhs["referencedDecl"]["name"])
+            tl = tinfo(ctype(lhs))
+            one = lit(1, tl[0])
+            t = f"({nm} + {one})" if s["opcode"] == "++" else f"({nm} - {one})"
+            c = []
+            if tl[1]:   # signed overflow is undefined
+                lim = lit((1 << (tl[0] - 1)) - 1, tl[0]) if s["opcode"] == "++" else lit(1 << (tl[0] - 1), tl[0])
+                c = [f"({nm} != {lim})"]
+            v, dfn = self.block(rest)
+            return (f"let {nm} : BitVec {tl[0]} := {t}\n{v}",
+                    f"{conj(c)} &&\n(let {nm} : BitVec {tl[0]} := {t}\n{dfn})")
+        if k == "SwitchStmt":
+            # switch (x) { case A: return a; ... default: return d; }  every label followed by statements that return
+            inner = s["inner"]
+            x, tx, cx = self.expr(inner[0])
+            body = inner[1]
+            if body["kind"] != "CompoundStmt":
+                raise Unsupported("switch body")
+            cases, default = [], None
+            for c in body.get("inner", []):
+                if c["kind"] == "CaseStmt":
+                    val = const_eval_enum(self.tr, c["inner"][0])
+                    sub = c["inner"][1]
+                    if not always_returns(sub):
+                        raise Unsupported("case that falls through")
+                    cases.append((val, sub))
+                elif c["kind"] == "DefaultStmt":
+                    sub = c["inner"][0]
+                    if not always_returns(sub):
+                        raise Unsupported("default that falls through")
+                    default = sub
+                else:
+                    raise Unsupported("statement between case labels: " + c["kind"])
+            if default is not None:
+                v, dfn = self.block([default])
+            else:
+                v, dfn = self.block(rest)
+            for val, sub in reversed(cases):
+                tv, td = self.block([sub])
+                cond = f"({x} == {lit(val, tx[0])})"
+                v = f"if {cond} then\n{indent(tv)}\nelse\n{v}"
+                dfn = f"(if {cond} then\n{indent(td)}\nelse\n{dfn})"
+            return v, f"{conj(cx)} &&\n{dfn}"
         if k == "IfStmt":
             inner = s["inner"]
             c0, tc, cc = self.expr(inner[0])
@@ -370,6 +441,21 @@ def const_eval(e):
     raise Unsupported(f"constant {k}")
 
 
+def const_eval_enum(tr, e):
+    k = e["kind"]
+    if k in ("ImplicitCastExpr", "ParenExpr", "CStyleCastExpr"):
+        return const_eval_enum(tr, e["inner"][0])
+    if k == "ConstantExpr":
+        if "value" in e:
+            return int(e["value"])
+        return const_eval_enum(tr, e["inner"][0])
+    if k == "IntegerLiteral":
+        return int(e["value"])
+    if k == "DeclRefExpr" and e["referencedDecl"]["kind"] == "EnumConstantDecl":
+        return tr.enum_value(e["referencedDecl"]["name"])
+    raise Unsupported(f"case label {k}")
+
+
 def always_returns(s):
     k = s["kind"]
     if k == "ReturnStmt":
@@ -380,6 +466,11 @@ def always_returns(s):
     if k == "IfStmt":
         inner = s["inner"]
         return len(inner) > 2 and always_returns(inner[1]) and always_returns(inner[2])
+    if k == "SwitchStmt":
+        body = s["inner"][1]
+        labs = body.get("inner", [])
+        return any(c["kind"] == "DefaultStmt" for c in labs) and \
+            all(always_returns(c["inner"][-1]) for c in labs if c["kind"] in ("CaseStmt", "DefaultStmt"))
     return False
 
 
@@ -401,6 +492,7 @@ class Translator:
         self.order = []
         self.files = []
         self.rename = {}
+        self.unroll = {}
 
     def lean_name(self, cname):
         return self.rename.get(cname, cname.lstrip("_"))
@@ -430,6 +522,41 @@ class Translator:
                     return d
         raise Unsupported(f"function {fname} not found with a body")
 
+    def enum_value(self, name):
+        """value of an enumeration constant, from clang's own evaluation in the AST"""
+        for path in self.files:
+            cmd = ["clang", "-std=c11", "-fsyntax-only", "-Xclang", "-ast-dump=json",
+                   "-Xclang", f"-ast-dump-filter={name}"] + self.clang_args + [path]
+            r = subprocess.run(cmd, capture_output=True, text=True)
+            if r.returncode != 0:
+                continue
+            s = r.stdout
+            dec = json.JSONDecoder()
+            i = 0
+            while i < len(s):
+                while i < len(s) and s[i].isspace():
+                    i += 1
+                if i >= len(s):
+                    break
+                d, j = dec.raw_decode(s, i)
+                i = j
+                if d.get("kind") == "EnumConstantDecl" and d.get("name") == name:
+                    def find(x):
+                        if isinstance(x, dict):
+                            if x.get("kind") == "ConstantExpr" and "value" in x:
+                                return int(x["value"])
+                            if x.get("kind") == "IntegerLiteral":
+                                return int(x["value"])
+                            for c in x.get("inner", []):
+                                v = find(c)
+                                if v is not None:
+                                    return v
+                        return None
+                    v = find(d)
+                    if v is not None:
+                        return v
+        raise Unsupported(f"value of enumeration constant {name}")
+
     def require(self, fname):
         if fname in self.done:
             return
@@ -446,9 +573,13 @@ def main():
     ap.add_argument("--out", required=True)
     ap.add_argument("--file", action="append", required=True)
     ap.add_argument("--fn", action="append", required=True)
+    ap.add_argument("--unroll", action="append", default=[], help="fn=N: unroll the loops of fn N times")
     ap.add_argument("clang_args", nargs="*")
     a = ap.parse_args()
     tr = Translator(a.clang_args)
+    for u in a.unroll:
+        k_, v_ = u.split("=")
+        tr.unroll[k_] = int(v_)
     for f in a.file:
         tr.load(f)
     for fn in a.fn:
